@@ -237,6 +237,7 @@ def check_property(prop: str, tier: str, seed: int) -> int:
         "trusted_base": [f"{t['fn']}: {t['reason']}" for t in trusted] + spec.get("trusted", []),
         "samples": [o["name"] for r in results for o in r["obligations"]][:40] + ([{"smt2": results[0]["sample_smt2"]}] if results and results[0]["sample_smt2"] else []),
         "bounded": rt_report,
+        "programs": len({r["key"].split(".")[0] for r in results if r["key"].startswith("generated:")}),
         "known_findings": kf_report, "fixed_defects_rechecked": fixed_report,
         "undecided": undecided, "crashes": crashes,
         "explanation": spec.get("explanation", ""),
